@@ -286,9 +286,13 @@ def run(ctx):
                               'thread %d of concurrent calls %s (%s) got %r instead of %r' % (t, idx, label, str(got[t])[:120], str(expected[idx[t]])[:120]))
                 return s2.events, False
         return s2.events, True
+    import time
+    t_conc = time.time()
     pairs = [(i, j) for i in range(len(CALLS)) for j in range(len(CALLS))]
     if quick:
         pairs = [p for p in pairs if p[0] in (0, 1, 5) and p[1] in (0, 1, 6)]
+    if not quick:
+        rng.shuffle(pairs)           # a time budget ends this part: no fixed pair is always the one left out
     for (i, j) in pairs:
         # every single pre-emption of the first call by the whole second call
         evs, ok = conc([i, j], sched.nonpreemptive({}), 'seq')
@@ -303,10 +307,13 @@ def run(ctx):
         for loc, lst in occ.items():
             ks.update([lst[0], lst[-1], rng.choice(lst)])
             if not quick:
-                ks.update(lst[:6])
+                ks.update(lst[:3])
         ks = sorted(k for k in ks if k >= 1)
         for k in ks:
             if not ok:
+                break
+            if time.time() - t_conc > (300 if quick else 2400):       # wall-clock budget of this part: the rest is not explored
+                ctx.cov['concurrent_schedules_cut_by_time_budget'] = True
                 break
             _, ok = conc([i, j], sched.nonpreemptive({k: 1}), 'preempt@%d' % k)
             nconc += 1
